@@ -11,6 +11,7 @@ import (
 	"io"
 	"log"
 	"net/http/httptest"
+	"net/netip"
 	"strings"
 	"testing"
 	"time"
@@ -345,10 +346,101 @@ func c04Matrix(yield func(c04Case) bool) {
 	}
 }
 
+// Slow state reads: a forwarding read samples the value and returns 700 ms later, so that RA generations overlap.
+// Every solicitation comes from a host of its own (one RS per host): the RA for it cannot rest on a forwarding value
+// sampled before that RS was read, nor before the generation began (write start - 700 ms) - a generation that
+// borrows the result of another one that is still in flight shows as a value from before its own trigger.
+func c04SlowProp(t *testing.T, k *verifkit.Kit) func(c c04Case) error {
+	return func(c c04Case) error {
+		r := runAdvertiser(t, c.Sc, nil)
+		if r.Panic != nil || r.W == nil {
+			return verifkit.Violf("panic", "panic in bubble: %v", r.Panic)
+		}
+		tl := r.W.timeline()
+		d := time.Duration(c.Sc.StateAfterNS)
+		readAt := map[netip.Addr]time.Duration{}
+		for _, rd := range r.Reads {
+			if rd.In.Err == nil && rd.In.Msg != nil && rd.In.Msg.Type().String() == vkTypeName("rs") {
+				if _, ok := readAt[rd.In.From.WithZone("")]; ok {
+					return fmt.Errorf("verif: generator bug: two solicitations from %v", rd.In.From)
+				}
+				readAt[rd.In.From.WithZone("")] = rd.At
+			}
+		}
+		overlapped, tightened := 0, 0
+		var prevEnd time.Duration
+		for i, x := range r.Writes {
+			final := c.Sc.Terminate && x.Start >= r.StopAt && x.Dst == vkAllNodes && i == len(r.Writes)-1 && r.Returned
+			lo := x.Start - d
+			if tr, ok := readAt[x.Dst]; ok && tr > lo {
+				lo = tr
+				tightened++
+			}
+			if x.Start-d < prevEnd {
+				overlapped++
+			}
+			prevEnd = max(prevEnd, x.Start)
+			// the values forwarding had at some instant of [lo, x.Start]
+			v0, _ := fwdAt(c, "eth0", lo)
+			can := map[bool]bool{v0: true}
+			for _, e := range c.Sc.Events {
+				if at := time.Duration(e.AtNS); e.Kind == "flip" && at >= lo && at <= x.Start {
+					can[e.Value], can[!e.Value] = true, true // (at the very instant of a flip either value)
+				}
+			}
+			okF, okNF := x.RA == c.Sc.Cfg.expect(true, final), x.RA == c.Sc.Cfg.expect(false, final)
+			if !(can[true] && okF || can[false] && okNF) {
+				return verifkit.Violf("C04/ra-rests-on-forwarding-state-from-before-its-trigger", "RA to %v written at %v: forwarding was %v throughout [%v, %v] (its solicitation was read at %v, a state read takes %v), yet the RA is\n%s\n%s",
+					x.Dst, x.Start, v0, lo, x.Start, readAt[x.Dst], d, x.RA, tl)
+			}
+		}
+		_ = tightened // (only a generation that borrows an older result is ever bounded by its solicitation rather than by its own start)
+		k.Record(c, overlapped > 0, fmt.Sprintf("overlapping-generations=%d", min(overlapped, 4)))
+		return nil
+	}
+}
+
+func c04GenSlow(t *rapid.T) c04Case {
+	s, ms := int64(time.Second), int64(time.Millisecond)
+	cfg := c06BaseCfg(rapid.SampledFrom([]int64{4, 8, 600}).Draw(t, "max"))
+	cfg.LifeS = rapid.SampledFrom([]int64{1800, 9000, 12}).Draw(t, "life")
+	sc := advScenario{Cfg: cfg, Fwd0: rapid.Bool().Draw(t, "fwd0"), Terminate: rapid.Bool().Draw(t, "term"), StateAfterNS: 700 * ms}
+	at, host, fwd := 4*s, 0, sc.Fwd0
+	rs := func(at int64) {
+		host++
+		sc.Events = append(sc.Events, advEvent{AtNS: at, Kind: "rs", From: fmt.Sprintf("fe80::%x", 0x100+host)})
+	}
+	for i, n := 0, rapid.IntRange(1, 6).Draw(t, "groups"); i < n; i++ {
+		at += rapid.Int64Range(0, 4*s).Draw(t, "gap")
+		// a solicitation, a flip while its answer is being generated (the answer is due within 500 ms, a generation
+		// takes 700 ms), and further solicitations right after the flip
+		rs(at)
+		flip := at + rapid.Int64Range(1, 1100*ms).Draw(t, "flipafter")
+		fwd = !fwd
+		if rapid.IntRange(0, 4).Draw(t, "noflip") == 0 {
+			fwd = !fwd // (sometimes the flip is to the value it already has)
+		}
+		sc.Events = append(sc.Events, advEvent{AtNS: flip, Kind: "flip", Value: fwd})
+		for j, m := 0, rapid.IntRange(0, 3).Draw(t, "followers"); j < m; j++ {
+			rs(flip + rapid.Int64Range(-200*ms, 600*ms).Draw(t, "after"))
+		}
+		at = flip + s
+	}
+	sc.StopNS = at + rapid.Int64Range(1, 3*s).Draw(t, "tail")
+	return c04Case{Sc: sc}
+}
+
 func TestVerif_C04(t *testing.T) {
 	k := verifkit.Start(t, "C04")
 	prop := c04Prop(t, k)
-	k.Regress(t, func(sub string, raw json.RawMessage) error { return verifkit.Decode(raw, prop) })
+	slow := c04SlowProp(t, k)
+	k.Regress(t, func(sub string, raw json.RawMessage) error {
+		if strings.HasPrefix(sub, "slow") {
+			return verifkit.Decode(raw, slow)
+		}
+		return verifkit.Decode(raw, prop)
+	})
 	verifkit.Enumerate(k, t, "path-x-forwarding-x-lifetime-matrix", true, c04Matrix, prop)
 	verifkit.Rapid(k, t, "forwarding-flip-histories", k.N(1500, 300000), c04Gen, prop)
+	verifkit.Rapid(k, t, "slow-state-reads", k.N(400, 60000), c04GenSlow, slow)
 }
